@@ -13,7 +13,7 @@ SCOPES = ["function", "class", "module", "package", "session"]
 
 
 def pname(kind, i):
-    return {"self": "self", "request": "request", "star": "args", "kw": "kwargs"}.get(kind, ["dep_a", "dep_b", "dep_c"][i - 1])
+    return {"self": "self", "request": "request", "star": "args", "kw": "kwargs", "aliasname": "custom_name"}.get(kind, ["dep_a", "dep_b", "dep_c"][i - 1])
 
 
 def signature(params):
@@ -27,7 +27,7 @@ def signature(params):
             out.append(n)
             if i == posonly[-1]:
                 out.append("/")
-        elif k in ("plain", "self", "request"):
+        elif k in ("plain", "self", "request", "aliasname"):
             out.append(n)
         elif k == "default":
             out.append(n + "=1")
@@ -117,6 +117,9 @@ def render_fn(f):
     if form.startswith("scope") and form[5:].isdigit():
         args = 'scope="%s"' % SCOPES[int(form[5:])]
     deco = "@" + f["deco"] + ("" if args is None else "(%s)" % args)
+    if f["extra"] == "preset_before":
+        lines += [ind + 'session_fixture = pytest.fixture(scope="session")', ind + "auto = fixture(autouse=True)",
+                  ind + 'renamed = pytest.fixture(name="other_name")', ""]
     if f["extra"] == "before":
         lines.append(ind + "@some_decorator")
     if f["extra"] == "kwdeco_before":
